@@ -98,8 +98,40 @@ def _os_ns(fs):
     path = _NS(isdir=fs.isdir, isfile=fs.isfile, join=fs.join, exists=lambda p: p in fs.files or p in fs.dirs,
                getsize=fs.getsize, basename=lambda p: p.rsplit("/", 1)[-1], dirname=lambda p: p.rsplit("/", 1)[0] if "/" in p else "",
                split=lambda p: tuple(p.rsplit("/", 1)) if "/" in p else ("", p), sep="/")
+    path.getmtime = lambda p: _mtime(fs, p)
+    path.getatime = path.getmtime
+    path.getctime = path.getmtime
     return _NS(path=path, listdir=fs.listdir, makedirs=fs.makedirs, mkdir=fs.mkdir, sep="/", walk=fs.walk,
-               stat=lambda p: _NS(st_size=fs.getsize(p)))
+               stat=lambda p: _NS(st_size=fs.getsize(p), st_mtime=_mtime(fs, p), st_mtime_ns=int(_mtime(fs, p) * 10 ** 9)))
+
+
+def _mtime(fs, p):
+    if p not in fs.files and p not in fs.dirs:
+        raise MI.Raised("OSError")
+    return getattr(fs, "mtimes", {}).get(p, getattr(fs, "default_mtime", 100.0))
+
+
+class _Logger:
+    """the logging module as the transfer functions see it"""
+    mi_native = True
+
+    def __init__(self, debug_on):
+        self.debug_on = debug_on
+
+    def isEnabledFor(self, level):
+        return self.debug_on or level >= 30
+
+    def getEffectiveLevel(self):
+        return 10 if self.debug_on else 30
+
+    def debug(self, *a, **k):
+        pass
+    info = warning = warn = error = exception = log = debug
+
+
+def _logging_ns(debug_on):
+    lg = _Logger(debug_on)
+    return _NS(getLogger=lambda *a: lg, DEBUG=10, INFO=20, WARNING=30, ERROR=40, CRITICAL=50, basicConfig=lambda *a, **k: None)
 
 
 class _File:
@@ -173,10 +205,23 @@ def _expected(files, dirs, src, dst, flt):
     return of, od
 
 
-def _glookup(ctx, mod):
+def _glookup(ctx, mod, extra=None):
+    memo = {}
+
     def look(n):
         v = ctx.try_fold(ast.Name(id=n, ctx=ast.Load()), mod)
-        return (v is not None), v
+        if v is not None:
+            return True, v
+        if n in memo:
+            return True, memo[n]
+        exprs = mod.toplevel.get(n)
+        if exprs and extra is not None:
+            try:
+                memo[n] = MI.eval_expr(exprs[-1], extra)
+                return True, memo[n]
+            except (AnalysisError, MI.Raised, TypeError, AttributeError):
+                return False, None
+        return False, None
     return look
 
 
@@ -194,7 +239,7 @@ def model_copy(ctx, rep, direction):
     bad = []
     runs = 0
     flt_tmp = lambda name: not (name.endswith(".tmp") or name.startswith("_") or name == "build")
-    for chunk in (1, 64, 256, 768, 1000, 16000):
+    for chunk, debug_on, stale in [(c_, False, False) for c_ in (1, 64, 256, 768, 1000, 16000)] + [(256, True, False), (256, False, True)]:
         for flt_name, flt in (("no filter", None), ("filter", flt_tmp)):
             for what in ("tree", "file", "empty file"):
                 if chunk == 1 and what == "tree":
@@ -203,15 +248,21 @@ def model_copy(ctx, rep, direction):
                 sfiles, sdirs = _tree("src")
                 src_fs = _FS(sfiles, sdirs)
                 dst_fs = _FS({}, {"out"})
+                if stale:
+                    # an earlier copy is already there: same names and sizes, other content, not older than the source
+                    of_, od_ = _expected(sfiles, sdirs, {"tree": "src", "file": "src/a.bin", "empty file": "src/empty"}[what],
+                                         "out/copy", flt)
+                    dst_fs = _FS({k_: bytes((x_ ^ 0x55) for x_ in v_) for k_, v_ in of_.items()}, {"out"} | od_)
+                    dst_fs.default_mtime = 200.0
                 local, remote = (src_fs, dst_fs) if direction == "upload" else (dst_fs, src_fs)
                 conn_obj = _NS(modules=_NS(os=_os_ns(remote), glob=_NS(glob=remote.glob)), builtin=_NS(open=remote.open),
                                builtins=_NS(open=remote.open))
                 extra = {"__calls__": {}, "__max_iter__": 5000}
-                glob = {"os": _os_ns(local), "open": local.open, "glob": _NS(glob=local.glob)}
+                glob = {"os": _os_ns(local), "open": local.open, "glob": _NS(glob=local.glob), "logging": _logging_ns(debug_on)}
                 for nm, f in fnodes.items():
                     glob[nm] = (lambda f: lambda *a, **k: MI.call_function(f.node, list(a), extra, k))(f)
                 extra["__globals__"] = glob
-                extra["__global_lookup__"] = _glookup(ctx, mod)
+                extra["__global_lookup__"] = _glookup(ctx, mod, extra)
                 s_path = {"tree": "src", "file": "src/a.bin", "empty file": "src/empty"}[what]
                 d_path = "out/copy"
                 try:
@@ -225,7 +276,9 @@ def model_copy(ctx, rep, direction):
                 want_f, want_d = _expected(sfiles, sdirs, s_path, d_path, flt)
                 got_f = {k: v for k, v in dst_fs.files.items()}
                 got_d = {d for d in dst_fs.dirs if d != "out"}
-                label = "%s of a %s, chunk size %d, %s" % (direction, what, chunk, flt_name)
+                label = "%s of a %s, chunk size %d, %s%s%s" % (direction, what, chunk, flt_name, ", debug logging enabled" if debug_on else "",
+                                                           ", over an earlier copy with the same names and sizes" if stale else "")
+
                 if out:
                     bad.append("%s: %s" % (label, out))
                 elif got_f != want_f or got_d != want_d:
@@ -255,11 +308,11 @@ def model_copy(ctx, rep, direction):
     local, remote = (src_fs, dst_fs) if direction == "upload" else (dst_fs, src_fs)
     conn_obj = _NS(modules=_NS(os=_os_ns(remote), glob=_NS(glob=remote.glob)), builtin=_NS(open=remote.open), builtins=_NS(open=remote.open))
     extra = {"__calls__": {}, "__max_iter__": 5000}
-    glob = {"os": _os_ns(local), "open": local.open, "glob": _NS(glob=local.glob)}
+    glob = {"os": _os_ns(local), "open": local.open, "glob": _NS(glob=local.glob), "logging": _logging_ns(False)}
     for nm, f in fnodes.items():
         glob[nm] = (lambda f: lambda *a, **k: MI.call_function(f.node, list(a), extra, k))(f)
     extra["__globals__"] = glob
-    extra["__global_lookup__"] = _glookup(ctx, mod)
+    extra["__global_lookup__"] = _glookup(ctx, mod, extra)
     try:
         MI.call_function(top.node, [conn_obj, "src", "out/copy"], extra, {"chunk_size": 256})
         want_f, want_d = _expected(sfiles, sdirs, "src", "out/copy", None)
@@ -277,11 +330,11 @@ def model_copy(ctx, rep, direction):
         conn_obj = _NS(modules=_NS(os=_os_ns(remote), glob=_NS(glob=remote.glob)), builtin=_NS(open=remote.open),
                        builtins=_NS(open=remote.open))
         extra = {"__calls__": {}}
-        glob = {"os": _os_ns(local), "open": local.open, "glob": _NS(glob=local.glob)}
+        glob = {"os": _os_ns(local), "open": local.open, "glob": _NS(glob=local.glob), "logging": _logging_ns(False)}
         for nm, f in fnodes.items():
             glob[nm] = (lambda f: lambda *a, **k: MI.call_function(f.node, list(a), extra, k))(f)
         extra["__globals__"] = glob
-        extra["__global_lookup__"] = _glookup(ctx, mod)
+        extra["__global_lookup__"] = _glookup(ctx, mod, extra)
         try:
             MI.call_function(top.node, [conn_obj, "src/nothing-here", "out/x"], extra, {"ignore_invalid": ignore})
             raised = None
